@@ -93,6 +93,13 @@ def codec_cfg(name, levels=(6, 9), msgs=5, indep=False, receiver="by_level", bug
 def run(v, tier, seed):
     try:
         return _run(v, tier, seed)
+    except vlib.MachineryError as ex:
+        # code that breaks the property can also break what later stages rely on (a clean first run to corrupt in a self test, ...):
+        # the verdict is the VIOLATION already printed, not an ERROR
+        if not v.violations: raise
+        vlib.log("NOTE property=C03 a later stage could not complete after the violation(s) above: %s" % str(ex)[:400])
+        return "model_checking", {"states": 0, "transitions": 0, "traces_validated_against_impl": 0, "evaluations": 0, "distinct_nontrivial": 0, "exhaustive": False,
+                                  "rule": "run abandoned after a violation: %s" % str(ex)[:200], "samples": [{"kind": "violation", "what": v.violations[0][0][:300]}]}, []
     finally:
         for n in _cfgs:
             try: os.remove(os.path.join(vlib.SPEC, FAM, n))
@@ -158,7 +165,7 @@ def _run(v, tier, seed):
                 v.drift += 1
                 if v.drift <= 6: vlib.log("DRIFT property=C03 %s (%s): %s" % (what, r.get("config"), "; ".join(r["drift"])[:400]))
         if summ is None: raise vlib.MachineryError("no summary line from %s" % what)
-        if summ.get("aborted"): pass    # the watchdog fired: the violation line is in the report
+        if summ.get("aborted"): raise vlib.MachineryError("%s: the harness stopped (%s); the violation line is in the report" % (what, summ["aborted"]))
         return summ
 
     # ---------------------------------------------------------------------------------------------------------------
@@ -192,9 +199,49 @@ def _run(v, tier, seed):
             else: r = tlc("GwBinaryTrace", "BinTrace.cfg", 1, 2400, env={"TRACE": cat}, heap="6g")
             return r, cat, n
         E = []
-        runs, msgs, traced, tmsgs = (40, 150, 1, 50) if quick else (int(1500 * scale) + 8, 300, int(10 * scale) + 1, 300)
+        runs, msgs, traced, tmsgs = (40, 150, 1, 50) if quick else (int(1500 * scale) + 8, 300, int(6 * scale) + 1, 300)
         for i, g in enumerate(groups): E.append(ex.submit(explore, "gw", g, "g%d" % i, runs, msgs, traced, tmsgs, seed))
         for p, g in C_GROUPS: E.append(ex.submit(explore, p, g, p, runs, msgs, traced, tmsgs, seed))
+        # the trace binding rejects a corrupted log
+        def selftest_trace(abs_logs, bin_logs):
+            done = 0
+            lines = [l for l in open(abs_logs[0]).read().split("\n") if l]
+            starts = [i for i, l in enumerate(lines) if l.startswith('{"e":"Reset"')] + [len(lines)]
+            seg = [json.loads(l) for l in lines[starts[0]:starts[1]]]
+            di = [i for i, x in enumerate(seg) if x["e"] == "D" and "i" in x]
+            if seg[0].get("mode") != "items" or len(di) < 3 or seg[-1]["e"] != "Q": raise vlib.MachineryError("self test: unexpected first run in %s" % abs_logs[0])
+            c1 = copy.deepcopy(seg); c1[di[1]]["i"] += 1                      # another item than the one queued next
+            c2 = copy.deepcopy(seg); del c2[di[-1]]                           # the last delivery is missing at quiescence
+            c3 = copy.deepcopy(seg); c3.insert(di[0], dict(c3[di[0]]))       # one item twice
+            for name, c, expect in ((("c1", c1, "Prefix"), ("c2", c2, "QuietEqual")) if quick else (("c1", c1, "Prefix"), ("c2", c2, "QuietEqual"), ("c3", c3, "Prefix"))):
+                f2 = W("abs_selftest_%s.ndjson" % name); vlib.write_ndjson(f2, c)
+                rr = tlc("GwAbsTrace", "AbsTrace.cfg", 1, 600, env={"TRACE": f2}, heap="2g")
+                if rr.violated != expect: raise vlib.MachineryError("self test: a corrupted event log (%s) was not rejected with %s but gave %s" % (name, expect, rr.violated or rr.error))
+                done += 1
+            lines = [l for l in open(bin_logs[0]).read().split("\n") if l]
+            starts = [i for i, l in enumerate(lines) if l.startswith('{"e":"Reset"')] + [len(lines)]
+            seg = [json.loads(l) for l in lines[starts[0]:starts[1]]]
+            oi = [i for i, x in enumerate(seg) if x["e"] == "Out" and x["ret"] > 0]; ii = [i for i, x in enumerate(seg) if x["e"] == "In" and x["dl"]]
+            c4 = copy.deepcopy(seg); c4[oi[len(oi) // 2]]["ret"] += 1         # DoOutput reports one byte more than it wrote
+            c5 = copy.deepcopy(seg); c5[ii[0]]["dl"] = c5[ii[0]]["dl"][:-1]   # a Message handed over one call later than it must be
+            for name, c in ((("c4", c4),) if quick else (("c4", c4), ("c5", c5))):
+                f2 = W("bin_selftest_%s.ndjson" % name); vlib.write_ndjson(f2, c)
+                rr = tlc("GwBinaryTrace", "BinTrace.cfg", 1, 900, env={"TRACE": f2}, heap="3g")
+                if rr.violated or rr.error: raise vlib.MachineryError("self test: a corrupted call log (%s) gave %s" % (name, rr.violated or rr.error))
+                if "accepted" in rr.printed: raise vlib.MachineryError("self test: a corrupted call log (%s) was accepted by GwBinaryTrace" % name)
+                done += 1
+            return done
+        def validate_all():
+            """as soon as the random runs are over: TLC on their logs (quick: one run per kind of log; thorough: one per harness process), then the self test"""
+            res = [f.result() for f in E]
+            al = [r[2] for r in res if os.path.getsize(r[2]) > 0]; bl = [r[3] for r in res if os.path.getsize(r[3]) > 0]
+            if quick: V = [ex.submit(validate_logs, "abs", al, "q"), ex.submit(validate_logs, "bin", bl, "q")]
+            else: V = [ex.submit(validate_logs, "abs", [f], str(i)) for i, f in enumerate(al)] + [ex.submit(validate_logs, "bin", [f], str(i)) for i, f in enumerate(bl)]
+            vr = [f.result() for f in V]
+            clean = all(not any(x.get("violations") for x in r[1]) for r in res) and all(r is None or "accepted" in r.printed for r, cat, n in vr)
+            st = selftest_trace(al, bl) if (al and bl and clean) else 0
+            return vr, st
+        f_val = ex.submit(validate_all)
 
         # -----------------------------------------------------------------------------------------------------------
         # 2. spec -> code
@@ -216,13 +263,42 @@ def _run(v, tier, seed):
             harness(p, ["replay", bf, rep, 2, 5, nvar, seed] + cfgs, "replay " + tag)
             return tag, vlib.read_ndjson(rep)
 
+        # the binding rejects a corrupted behaviour step
+        def selftest_replay(beh):
+            cases = []
+            for b in beh:
+                if len(cases) >= 1: break
+                for i, x in enumerate(b):
+                    if x.get("a") == "In" and x.get("nd", 0) > 0 and x.get("dl"):
+                        c = copy.deepcopy(b); c[i]["nd"] += 1; cases.append(("number of Messages delivered after a DoInput step + 1", c)); break
+            for b in beh:
+                if len(cases) >= 2: break
+                for i, x in enumerate(b):
+                    if x.get("a") == "Out" and len(x.get("w", [])) >= 2 and x["w"][0] > 1:
+                        c = copy.deepcopy(b); c[i]["w"][0] -= 1; c[i]["w"][1] += 1; cases.append(("one byte moved from the first Write() result to the second", c)); break
+            for b in beh:
+                if len(cases) >= 3: break
+                for i, x in enumerate(b):
+                    if x.get("a") == "Out" and x.get("popped", 0) > 0 and x.get("ret", 0) > 0:
+                        c = copy.deepcopy(b); c[i]["popped"] -= 1; cases.append(("outgoing queue length after a DoOutput step + 1", c)); break
+            if len(cases) < 3: raise vlib.MachineryError("self test: no behaviour step to corrupt")
+            f2 = W("beh_selftest.ndjson"); rep = W("rep_selftest.ndjson")
+            vlib.write_ndjson(f2, [{"id": i, "steps": c[1]} for i, c in enumerate(cases)])
+            harness("gw", ["replay", f2, rep, 2, 5, 1, seed, "bin0"], "self test replay")
+            rows = vlib.read_ndjson(rep)
+            flagged = set(r["behaviour"] for r in rows if not r.get("summary") and (r.get("drift") or r.get("violations")))
+            for i, c in enumerate(cases):
+                if i not in flagged: raise vlib.MachineryError("self test: a behaviour with %s was replayed without any report" % c[0])
+            return len(cases)
         def gen_and_replay(tag, msgs, args, nvar):
             beh, st = gen_binary(tag, msgs, args)
             bf = W("beh_%s.ndjson" % tag)
             vlib.write_ndjson(bf, [{"id": i, "steps": s} for i, s in enumerate(beh)])
             fs = [ex.submit(replay, "gw", g, "%s_g%d" % (tag, i), bf, nvar) for i, g in enumerate(groups)]
             fs += [ex.submit(replay, p, g, "%s_%s" % (tag, p), bf, nvar) for p, g in C_GROUPS]
+            if tag == "m2": selfrep.append(ex.submit(selftest_replay, beh))
             return beh, st, fs, bf
+        selfrep = []
         G = [ex.submit(gen_and_replay, "m2", 2, (1, 2, 3), 1 if quick else 3)]     # quick: each behaviour in one of the three concretisations (by its number), thorough: in all three
         if not quick: G.append(ex.submit(gen_and_replay, "m3", 3, (1, 3), 1))
 
@@ -241,7 +317,7 @@ def _run(v, tier, seed):
             fs += [ex.submit(replay, p, g, "%s_%s" % (tag, p), bf, 1) for p, g in C_GROUPS]
             return beh, {"simulated": len(r.printed), "distinct": len(beh)}, fs, bf
         S = []
-        if not quick: S.append(ex.submit(simulate, "sim6", 6, 24, int(6000 * scale) + 50))
+        if not quick: S.append(ex.submit(simulate, "sim6", 6, 24, int(1200 * scale) + 50))
 
         def tcache(tag, shapes, budget, msgs, inflight, unit):
             name = tc_cfg("GenTC_" + tag, shapes=shapes, budget=budget, msgs=msgs, inflight=inflight, record=True, invs=["NeverMiss", "CacheInSync"])
@@ -295,6 +371,7 @@ def _run(v, tier, seed):
             r = tlc(module, cfg, 1, 600, heap="2g")
             got = r.violated
             if got is None and r.error and "Action property" in r.error and "is violated" in r.error: got = "AbsSpec"     # a step that is not a step of GwAbs
+            if got is None and r.error and re.search(r"Temporal propert\w+ (\w+ )?w\w+ violated", r.error): got = "temporal"
             if got != expect: raise vlib.MachineryError("vacuity guard %s: expected the wrong variant to violate %s, got %s %s" % (what, expect, r.violated, (r.error or "")[:300]))
             return what
         J = []; RJ = []
@@ -358,35 +435,7 @@ def _run(v, tier, seed):
                 for c, d in s.get("per_config", {}).items():
                     pc = per_cfg.setdefault(c, {"replays": 0, "followed": 0, "random_runs": 0, "random_messages": 0})
                     pc["replays"] += d["replays"]; pc["followed"] += d["followed"]
-        # the binding rejects a corrupted behaviour step
-        def selftest_replay():
-            beh, bf = first_beh
-            cases = []
-            for b in beh:
-                if len(cases) >= 1: break
-                for i, x in enumerate(b):
-                    if x.get("a") == "In" and x.get("nd", 0) > 0 and x.get("dl"):
-                        c = copy.deepcopy(b); c[i]["nd"] += 1; cases.append(("number of Messages delivered after a DoInput step + 1", c)); break
-            for b in beh:
-                if len(cases) >= 2: break
-                for i, x in enumerate(b):
-                    if x.get("a") == "Out" and len(x.get("w", [])) >= 2 and x["w"][0] > 1:
-                        c = copy.deepcopy(b); c[i]["w"][0] -= 1; c[i]["w"][1] += 1; cases.append(("one byte moved from the first Write() result to the second", c)); break
-            for b in beh:
-                if len(cases) >= 3: break
-                for i, x in enumerate(b):
-                    if x.get("a") == "Out" and x.get("popped", 0) > 0 and x.get("ret", 0) > 0:
-                        c = copy.deepcopy(b); c[i]["popped"] -= 1; cases.append(("outgoing queue length after a DoOutput step + 1", c)); break
-            if len(cases) < 3: raise vlib.MachineryError("self test: no behaviour step to corrupt")
-            f2 = W("beh_selftest.ndjson"); rep = W("rep_selftest.ndjson")
-            vlib.write_ndjson(f2, [{"id": i, "steps": c[1]} for i, c in enumerate(cases)])
-            harness("gw", ["replay", f2, rep, 2, 5, 1, seed, "bin0"], "self test replay")
-            rows = vlib.read_ndjson(rep)
-            flagged = set(r["behaviour"] for r in rows if not r.get("summary") and (r.get("drift") or r.get("violations")))
-            for i, c in enumerate(cases):
-                if i not in flagged: raise vlib.MachineryError("self test: a behaviour with %s was replayed without any report" % c[0])
-            return len(cases)
-        f_self = [ex.submit(selftest_replay)]
+        f_self = list(selfrep)
 
         # collect: template caches
         tcs = {"behaviours": 0, "replays": 0, "followed": 0, "drifted": 0, "create_frames": 0, "payload_frames": 0, "plain_frames": 0, "creates_with_eviction": 0}
@@ -458,13 +507,8 @@ def _run(v, tier, seed):
                 pc["random_runs"] += d["runs"]; pc["random_messages"] += d["messages"]
             if os.path.getsize(ab) > 0: abs_logs.append(ab)
             if os.path.getsize(bn) > 0: bin_logs.append(bn)
-        # quick: one TLC run per kind of log; thorough: one per harness process
-        V = []
-        if not v.violations:
-            if quick: V = [ex.submit(validate_logs, "abs", abs_logs, "q"), ex.submit(validate_logs, "bin", bin_logs, "q")]
-            else: V = [ex.submit(validate_logs, "abs", [f], str(i)) for i, f in enumerate(abs_logs)] + [ex.submit(validate_logs, "bin", [f], str(i)) for i, f in enumerate(bin_logs)]
-        for f in V:
-            r, cat, n = f.result()
+        vr, n_trace_selftests = f_val.result()
+        for r, cat, n in vr:
             if r is None: continue
             accepted = ("accepted" in r.printed)
             if "abs_all" in cat:
@@ -483,37 +527,7 @@ def _run(v, tier, seed):
                     vlib.log("DRIFT property=C03 a recorded call log is not a behaviour of GwBinaryImpl: first unexplained line about %s of %s in %s" % (_first_unexplained(cat, r.depth), n, cat))
         if exs["zero_byte_results"] == 0 or exs["one_byte_results"] == 0: raise vlib.MachineryError("vacuity guard: random runs without 0-byte / 1-byte results: %s" % exs)
 
-        # the trace binding rejects a corrupted log
-        def selftest_trace():
-            done = 0
-            lines = [l for l in open(abs_logs[0]).read().split("\n") if l]
-            starts = [i for i, l in enumerate(lines) if l.startswith('{"e":"Reset"')] + [len(lines)]
-            seg = [json.loads(l) for l in lines[starts[0]:starts[1]]]
-            di = [i for i, x in enumerate(seg) if x["e"] == "D" and "i" in x]
-            if seg[0].get("mode") != "items" or len(di) < 3 or seg[-1]["e"] != "Q": raise vlib.MachineryError("self test: unexpected first run in %s" % abs_logs[0])
-            c1 = copy.deepcopy(seg); c1[di[1]]["i"] += 1                      # another item than the one queued next
-            c2 = copy.deepcopy(seg); del c2[di[-1]]                           # the last delivery is missing at quiescence
-            c3 = copy.deepcopy(seg); c3.insert(di[0], dict(c3[di[0]]))       # one item twice
-            for name, c, expect in ((("c1", c1, "Prefix"), ("c2", c2, "QuietEqual")) if quick else (("c1", c1, "Prefix"), ("c2", c2, "QuietEqual"), ("c3", c3, "Prefix"))):
-                f2 = W("abs_selftest_%s.ndjson" % name); vlib.write_ndjson(f2, c)
-                rr = tlc("GwAbsTrace", "AbsTrace.cfg", 1, 600, env={"TRACE": f2}, heap="2g")
-                if rr.violated != expect: raise vlib.MachineryError("self test: a corrupted event log (%s) was not rejected with %s but gave %s" % (name, expect, rr.violated or rr.error))
-                done += 1
-            lines = [l for l in open(bin_logs[0]).read().split("\n") if l]
-            starts = [i for i, l in enumerate(lines) if l.startswith('{"e":"Reset"')] + [len(lines)]
-            seg = [json.loads(l) for l in lines[starts[0]:starts[1]]]
-            oi = [i for i, x in enumerate(seg) if x["e"] == "Out" and x["ret"] > 0]; ii = [i for i, x in enumerate(seg) if x["e"] == "In" and x["dl"]]
-            c4 = copy.deepcopy(seg); c4[oi[len(oi) // 2]]["ret"] += 1         # DoOutput reports one byte more than it wrote
-            c5 = copy.deepcopy(seg); c5[ii[0]]["dl"] = c5[ii[0]]["dl"][:-1]   # a Message handed over one call later than it must be
-            for name, c in ((("c4", c4),) if quick else (("c4", c4), ("c5", c5))):
-                f2 = W("bin_selftest_%s.ndjson" % name); vlib.write_ndjson(f2, c)
-                rr = tlc("GwBinaryTrace", "BinTrace.cfg", 1, 900, env={"TRACE": f2}, heap="3g")
-                if rr.violated or rr.error: raise vlib.MachineryError("self test: a corrupted call log (%s) gave %s" % (name, rr.violated or rr.error))
-                if "accepted" in rr.printed: raise vlib.MachineryError("self test: a corrupted call log (%s) was accepted by GwBinaryTrace" % name)
-                done += 1
-            return done
-        if abs_logs and bin_logs: f_self.append(ex.submit(selftest_trace))
-        tot["selftests"] = sum(f.result() for f in f_self)
+        tot["selftests"] = sum(f.result() for f in f_self) + n_trace_selftests
 
     if rp["followed"] == 0 and not v.violations: raise vlib.MachineryError("no behaviour could be followed")
     if rp["zero_byte_results"] == 0 or rp["one_byte_results"] == 0: raise vlib.MachineryError("vacuity guard: replays without 0-byte / 1-byte results")
